@@ -49,25 +49,35 @@ func addEmptyLines(lines []memLine) []memLine {
 }
 
 func block2Lines(block interval.Interval[model.Addr]) []memLine {
-	begin := block.Begin() / bytesPerLine * bytesPerLine
-	end := (block.End() + bytesPerLine - 1) / bytesPerLine * bytesPerLine
+	if block.Len() == 0 {
+		return nil
+	}
 
-	lines := make([]memLine, 0, (end-begin)/bytesPerLine)
-	for i := begin; i < end; i += bytesPerLine {
+	// Line addresses are compared for equality as address of the line behind
+	// the last line of the address space is not representable.
+	begin := block.Begin() / bytesPerLine * bytesPerLine
+	last := (block.End() - 1) / bytesPerLine * bytesPerLine
+
+	lines := make([]memLine, 0, (last-begin)/bytesPerLine+1)
+	for i := begin; ; i += bytesPerLine {
 		b := i
 		if b < block.Begin() {
 			b = block.Begin()
 		}
 
 		e := i + bytesPerLine
-		if e > block.End() {
+		if e > block.End() || e < i {
 			e = block.End()
 		}
 
 		lines = append(lines, memLine{
-			addr:   b / bytesPerLine * bytesPerLine,
+			addr:   i,
 			ranges: []interval.Interval[model.Addr]{interval.New(b, e)},
 		})
+
+		if i == last {
+			break
+		}
 	}
 
 	return lines
